@@ -40,6 +40,7 @@ class Proc:
         self.abort = False
         self.torn = None
         self.io_error = None
+        self.trace = [None]        # trace[k] = pending operation at the k-th resume (k=0: process start)
         self.result = None
         self.exc = None
         self.thread = None
@@ -90,6 +91,7 @@ class Sim:
         if p.abort:
             raise SimAbort()
         p.pending = (op, path, info)
+        p.trace.append(p.pending)
         self.main_sem.release()
         p.sem.acquire()
         p.local_step += 1
